@@ -2680,7 +2680,35 @@ IMP_KERNELS = [
 ]
 
 
+TRUTHY_CLASSES = ["Fragment", "Gap", "Scaffold", "OverlapResult", "Assembly", "IndexedAssembly", "BuildAssembly", "FoundFragment", "FastaInfo",
+                  "OverhangPremise", "StartOverhangPremise", "EndOverhangPremise", "ScaffoldNamer"]
+
+
+def truthiness_guard():
+    """The translation reads `if obj:` / `not obj` / `a and obj` on objects of these classes as a None-test.  That is right only while none of them (nor
+    a base class) defines `__bool__` or `__len__`: checked here on the current source; otherwise every kernel is refused."""
+    bad = []
+    for f in sorted(SRC.rglob("*.py")):
+        try:
+            tree = ast.parse(f.read_text())
+        except Exception:
+            continue
+        for n in ast.walk(tree):
+            if isinstance(n, ast.ClassDef) and n.name in TRUTHY_CLASSES:
+                for m in n.body:
+                    if isinstance(m, ast.FunctionDef) and m.name in ("__bool__", "__len__"):
+                        bad.append(f"{n.name}.{m.name}")
+    return bad
+
+
 def main():
+    bad = truthiness_guard()
+    if bad:
+        txt = ("/- GENERATED by harness/translate_imp.py — REFUSED: " + ", ".join(bad) + " is defined; the translation of truthiness tests on objects "
+               "assumes these classes are always truthy -/\nimport AgpTpf.Model.PyRt\nnamespace AgpTpf.Gen.Imp\ndef TRUTHINESS_GUARD_FAILED : Unit := ()\nend AgpTpf.Gen.Imp\n")
+        if not OUT.exists() or OUT.read_text() != txt:
+            OUT.write_text(txt)
+        return 0
     parts = ["/- GENERATED by harness/translate_imp.py from /repo/src — do not edit -/", "import AgpTpf.Model.PyRt", "import AgpTpf.Model.PyRtHeap", "import AgpTpf.Model.Lookup",
              "import AgpTpf.Model.Fasta", "import AgpTpf.Model.Text", "set_option linter.unusedVariables false", "namespace AgpTpf.Gen.Imp", "open AgpTpf", ""]
     for spec in IMP_KERNELS + IMP_KERNELS_2 + IMP_KERNELS_3 + IMP_KERNELS_4 + IMP_KERNELS_5 + IMP_KERNELS_6 + IMP_KERNELS_7 + IMP_KERNELS_8 + IMP_KERNELS_9 + IMP_KERNELS_10 + IMP_KERNELS_11 + IMP_KERNELS_12 + IMP_KERNELS_13 + IMP_KERNELS_14 + IMP_KERNELS_15 + IMP_KERNELS_16 + IMP_KERNELS_17:
